@@ -15,6 +15,7 @@ func init() {
 		for !e.full() {
 			n := 1 + r.Intn(7)
 			imports := make([][]uint32, n)
+			dynamic := make([][]bool, n)
 			assets := make([][]string, n)
 			iso := make([][]byte, n)
 			shape := r.Intn(5)
@@ -38,6 +39,7 @@ func init() {
 						t = r.Intn(n)
 					}
 					imports[i] = append(imports[i], uint32(t))
+					dynamic[i] = append(dynamic[i], r.Chance(1, 3))
 				}
 				if r.Chance(1, 4) {
 					m := 1 + r.Intn(2)
@@ -80,7 +82,7 @@ func init() {
 				parts[i] = im + "/" + as + "/" + hexBytes(iso[i])
 			}
 			e.emit(fmt.Sprintf("chunkhash\tfinal\t%s\t%d", strings.Join(parts, " "), idx), guard(func() string {
-				return hexBytes(linker.VerifFinalHashPreimage(imports, assets, iso, uint32(idx)))
+				return hexBytes(linker.VerifFinalHashPreimage(imports, dynamic, assets, iso, uint32(idx)))
 			}))
 		}
 	}
